@@ -106,6 +106,7 @@ type monState struct {
 	curInData   [][]byte
 	curInTypes  []pb.EntryType
 	candByTerm  map[uint64]map[uint64]bool
+	commitClock map[uint64]int
 }
 
 func newMonState() *monState {
@@ -114,7 +115,7 @@ func newMonState() *monState {
 		campaigned: map[[2]uint64]int{}, confG: map[uint64]string{}, proposals: map[string]*propRec{}, reads: map[string]*readRec{},
 		ccCtx: map[string]bool{}, digest: sha256.New(), putByPayload: map[string]int{}, pendingGets: map[string]int{},
 		emptyByTerm: map[uint64]int{}, neutralByTerm: map[uint64]int{}, deliveredKV: map[uint64]string{}, putApplied: map[uint64]int{},
-		candByTerm: map[uint64]map[uint64]bool{}}
+		candByTerm: map[uint64]map[uint64]bool{}, commitClock: map[uint64]int{}}
 }
 
 func dhash(b []byte) uint64 {
@@ -396,10 +397,9 @@ func (w *World) onApplyEntry(n *node, e *pb.Entry) {
 		if _, ok := m.deliveredKV[idx]; !ok {
 			m.deliveredKV[idx] = string(e.GetData())
 		}
-		if p := m.proposals[string(e.GetData())]; p != nil && p.node == n.id {
-			if _, ok := m.putApplied[idx]; !ok {
-				m.putApplied[idx] = w.step
-			}
+		// the write at idx is acknowledged once some node has applied it
+		if _, ok := m.putApplied[idx]; !ok {
+			m.putApplied[idx] = w.clock
 		}
 	}
 	w.Stats["entries-applied"]++
@@ -573,7 +573,7 @@ func (w *World) completeGets(n *node) {
 		var ri uint64
 		fmt.Sscan(m.kv[i].val, &ri)
 		if n.appIndex >= ri {
-			m.kv[i].ret = w.step
+			m.kv[i].ret = w.clock
 			m.kv[i].open = false
 			m.kv[i].val = fmt.Sprint(n.appIndex) // resolved to a value from the delivered log at the end
 			delete(m.pendingGets, ctx)
@@ -600,7 +600,7 @@ func (m *monState) noteProposal(w *World, n *node, payloads [][]byte, batch bool
 		b = m.nBatch
 	}
 	for i, p := range payloads {
-		m.proposals[string(p)] = &propRec{node: n.id, step: w.step, batch: b, pos: i, atLeader: n.st.Role == raft.StateLeader}
+		m.proposals[string(p)] = &propRec{node: n.id, step: w.clock, batch: b, pos: i, atLeader: n.st.Role == raft.StateLeader}
 	}
 	w.Stats["proposals"] += len(payloads)
 }
@@ -646,7 +646,7 @@ func (w *World) preDeliver(t *node, msg *pb.Message, nm *netMsg) {
 	case pb.MsgReadIndex:
 		for _, e := range msg.GetEntries() {
 			if _, ok := t.readRecv[string(e.GetData())]; !ok {
-				t.readRecv[string(e.GetData())] = w.step
+				t.readRecv[string(e.GetData())] = w.clock
 			}
 		}
 	case pb.MsgHeartbeatResp:
@@ -892,7 +892,7 @@ func (w *World) monitors(n *node, kind string, in *pb.Message, pre, post *raft.V
 	m := w.mon
 	// fill acknowledgement chain hashes now that the shadow is current
 	fill := func(ms []msgMeta) {
-		for i := len(ms) - 1; i >= 0 && ms[i].createStep == w.step && !ms[i].ackChainOK; i-- {
+		for i := len(ms) - 1; i >= 0 && ms[i].createStep == w.clock && !ms[i].ackChainOK; i-- {
 			if ms[i].typ == pb.MsgAppResp && !ms[i].reject {
 				if c, ok := n.shadowChain(ms[i].index); ok {
 					ms[i].ackChain, ms[i].ackChainOK = c, true
@@ -984,6 +984,7 @@ func (w *World) monCommit(n *node, kind string, in *pb.Message, pre, post *raft.
 				}
 			} else {
 				m.G[i] = ge
+				m.commitClock[i] = w.clock
 				if w.keepLog {
 					w.logf("G[%d] = term %d chain %x by %s (shadowBase %d ok=%v basechain %x)", i, ge.term, ge.chain, ge.who, n.shadowBase, n.shadowBaseOK, n.shadowBaseChain)
 				}
@@ -1083,7 +1084,7 @@ func (w *World) monElection(n *node, kind string, in *pb.Message, pre, post *raf
 	}
 	// became leader
 	if post.Role == raft.StateLeader && (pre.Role != raft.StateLeader || pre.Term != post.Term) {
-		me := leaderRec{n.id, n.inc, w.step}
+		me := leaderRec{n.id, n.inc, w.clock}
 		if old, ok := m.leaderOf[post.Term]; ok && (old.node != n.id || old.inc != n.inc) {
 			if old.node == n.id {
 				w.violate("C02", []string{"C05"}, "node %d leads term %d again (incarnation %d) after an earlier incarnation (%d) already did", n.id, post.Term, n.inc, old.inc)
@@ -1120,7 +1121,7 @@ func (w *World) monElection(n *node, kind string, in *pb.Message, pre, post *raf
 			w.Stats["elections-won-before-own-vote-durable"]++
 		}
 		n.grants = nil
-		n.leaderSince = w.step
+		n.leaderSince = w.clock
 		n.leadTerm = post.Term
 		n.hbAck = map[uint64]int{}
 		// known-finding root events
